@@ -230,7 +230,10 @@ Definition implementer_edge (s : schema) (v : svertex) : res (list svertex) :=
   do t <- as_vertex_type site_not_vertex_type v;
   match subtypes s (t_name t) with
   | None => Panic site_subtypes
-  | Some names => Ok (flat_map (fun n => match sget s n with Some d => [SVType d] | None => [] end) names)
+  | Some names =>
+      (* .filter(move |implementer_type| *implementer_type != own_name): subtypes() includes the type itself *)
+      Ok (flat_map (fun n => match sget s n with Some d => [SVType d] | None => [] end)
+                   (filter (fun n => negb (String.eqb n (t_name t))) names))
   end.
 
 (* Type::from_type(&field.ty.node) and whether its base names a vertex type *)
@@ -408,10 +411,13 @@ Definition spec_implementer_documented (s : schema) : list row :=
                      then map (fun u => [Str (t_name t); Str (t_name u)])
                               (filter (fun u => mem (t_name t) (t_impl u)) (sc_types s))
                      else []) (visible_types s).
-(* ACTUAL (F18): the implementers AND the type itself, for interfaces and object types alike *)
+(* ACTUAL (what the code computes, whatever the kind of the type): the types OTHER than the type itself
+   that list it in their `implements` (`Schema::subtypes` minus the own name; since the repair of F18 the
+   type itself is filtered out).  On schemas Schema::new accepts this IS the documented relation
+   (IntrospectProofs.implementer_actual_eq_documented). *)
 Definition spec_implementer_actual (s : schema) : list row :=
   flat_map (fun t => map (fun u => [Str (t_name t); Str (t_name u)])
-                         (filter (fun u => String.eqb (t_name u) (t_name t) || mem (t_name t) (t_impl u)) (sc_types s)))
+                         (filter (fun u => negb (String.eqb (t_name u) (t_name t)) && mem (t_name t) (t_impl u)) (sc_types s)))
            (visible_types s).
 Definition spec_properties (s : schema) : list row :=
   flat_map (fun t => map (fun f => [Str (t_name t); Str (f_name f); Str (gty_text (f_ty f))]) (type_properties t))
